@@ -9,38 +9,57 @@ import EdbVerif.Model.Caps
 namespace EdbVerif.Caps
 open EdbVerif.Gen.Caps
 
-/-- does calling `f` count as a mutation: its (declared or inferred) volatility is Modifying -/
-def fnModifying (fe : FnEnv) (f : Nat) : Bool :=
+/-- `f` is Modifying (its declared or inferred volatility) and satisfies `g` -/
+def fnFlag (g : FnDecl → Bool) (fe : FnEnv) (f : Nat) : Bool :=
   match fe[f]? with
-  | some d => d.modifying
+  | some d => d.modifying && g d
   | none => false
 
 mutual
-/-- `q` syntactically contains an INSERT / UPDATE / DELETE node or a call of a modifying function,
-at any depth, in any position -/
-def containsDML (fe : FnEnv) : Q → Bool
+/-- `q` syntactically contains an INSERT / UPDATE / DELETE node, or a call of a Modifying function
+satisfying `g`, at any depth, in any position -/
+def containsG (g : FnDecl → Bool) (fe : FnEnv) : Q → Bool
   | .lit _ => false
   | .var _ => false
   | .objs _ => false
-  | .op args => containsDMLL fe args
-  | .call f args => fnModifying fe f || containsDMLL fe args
-  | .ifElse c t e => containsDML fe c || containsDML fe t || containsDML fe e
+  | .op args => containsGL g fe args
+  | .call f args => containsGL g fe args || fnFlag g fe f
+  | .ifElse c t e => containsG g fe c || (containsG g fe t || containsG g fe e)
   | .select subj shape filter order offlim =>
-    containsDML fe subj || containsDMLL fe shape || containsDMLL fe filter
-      || containsDMLL fe order || containsDMLL fe offlim
-  | .withB _ b body => containsDML fe b || containsDML fe body
-  | .forQ _ iter body => containsDML fe iter || containsDML fe body
+    containsG g fe subj || (containsGL g fe shape || (containsGL g fe filter
+      || (containsGL g fe order || containsGL g fe offlim)))
+  | .withB _ b body => containsG g fe b || containsG g fe body
+  | .forQ _ iter body => containsG g fe iter || containsG g fe body
   | .insert .. => true
   | .update .. => true
   | .delete .. => true
-def containsDMLL (fe : FnEnv) : QList → Bool
+  | .free shape => containsGL g fe shape
+def containsGL (g : FnDecl → Bool) (fe : FnEnv) : QList → Bool
   | .nil => false
-  | .cons q qs => containsDML fe q || containsDMLL fe qs
+  | .cons q qs => containsG g fe q || containsGL g fe qs
 end
 
-/-- functions that are not Modifying do not change the stored data -/
+/-- does calling `f` count as a mutation: its (declared or inferred) volatility is Modifying -/
+def fnModifying (fe : FnEnv) (f : Nat) : Bool := fnFlag (fun _ => true) fe f
+
+/-- calling `f` reaches a DML statement: `f` is Modifying (hence inlined) and its body, after
+inlining, contains an INSERT / UPDATE / DELETE statement -/
+def fnDmlStmt (fe : FnEnv) (f : Nat) : Bool := fnFlag (·.dmlStmt) fe f
+
+/-- `q` syntactically contains an INSERT / UPDATE / DELETE node or a call of a modifying function,
+at any depth, in any position: what makes the compiler attach MODIFICATIONS -/
+def containsDML (fe : FnEnv) (q : Q) : Bool := containsG (fun _ => true) fe q
+
+/-- evaluating `q` reaches an INSERT / UPDATE / DELETE statement node, in `q` itself or in the body
+of a called function (transitively): what volatility inference calls Modifying -/
+def containsStmt (fe : FnEnv) (q : Q) : Bool := containsG (·.dmlStmt) fe q
+
+/-- well-formed function environment: a function that is not Modifying reaches no DML statement,
+and a function that reaches no DML statement does not change the stored data -/
 def FnEnv.WF (fe : FnEnv) : Prop :=
-  ∀ (f : Nat) (d : FnDecl), fe[f]? = some d → d.modifying = false → ∀ db vs, (d.sem db vs).1 = db
+  ∀ (f : Nat) (d : FnDecl), fe[f]? = some d →
+    (d.modifying = false → d.dmlStmt = false) ∧
+    (d.dmlStmt = false → ∀ db vs, (d.sem db vs).1 = db)
 
 /-- The property statement: the capability a statement kind must at least carry.
 DDL for schema and migration commands, TRANSACTION for transaction control (and for migration
